@@ -48,7 +48,7 @@ def aligner_locate_e1(c):
     c.returns(OptT(TupT(Int, Int, Int, Int, Int, Int)))
     c.ghost("__lemma__('eq_def', s1)", after="s2 = query_bytes")
     c.ghost("__assert__(characters_equal == EQ(i - 1, j - 1), 'characters_equal_is_EQ')\n"
-            "__assert__(implies(p < j and j <= p + L and a0 + j - p == i, EQ(i - 1, j - 1)), 'occurrence_diagonal_matches')",
+            "__inst__('error_free', i - 1, j - 1)",
             before="if characters_equal:")
     c.requires(**OCC_PRE)
     for k_, inv in merge_loops(LOOPS_L3, LOOPS_E1).items():
